@@ -59,6 +59,9 @@ F2Pairs == TLCEval({p \in (Tri \cup Quad) \X (Tri \cup Quad) :
                       (HashQ(p[1], 1) * 31 + HashQ(p[2], 1)) % MP2 = 0 /\ p[1] # p[2] /\ GeneralPositionRings(p[1], p[2])})
 F2 == { [kind |-> "f2", op |-> op, A |-> << <<p[1]>> >>, B |-> << <<p[2]>> >>, ta |-> ta, tb |-> tb, w |-> 4 * F2N] :
           op \in Ops, p \in F2Pairs, ta \in {"Polygon", "MultiPolygon"}, tb \in {"Polygon"} }
-GenInit == c \in F1Thin \cup F1B \cup (IF F2N = 0 THEN {} ELSE F2) /\ PrintT(ToJson(c))
+(* the same operations at other magnitudes (coordinates times 2^sh, exact) *)
+Shifted == {[kind |-> x.kind, op |-> x.op, A |-> x.A, B |-> x.B, ta |-> x.ta, tb |-> x.tb, w |-> x.w, sh |-> s] :
+               x \in {y \in F1Thin : (HashS(y.A) + HashS(y.B)) % 4 = 0}, s \in {-20, 24}}
+GenInit == c \in F1Thin \cup F1B \cup Shifted \cup (IF F2N = 0 THEN {} ELSE F2) /\ PrintT(ToJson(c))
 GenSpec == GenInit /\ [][UNCHANGED c]_c
 =============================================================================
